@@ -76,3 +76,65 @@ class BlockSWP:
         return is_bool(result) and result == swp(self, name)
 
     raises_only = ()
+
+
+# ---------------------------------------------------------------- C17: the auto-namer as a whole
+from jaqalpaq.qsyntax.qsyntax import QConstant, QRegister
+
+
+@contract("qsyntax.qsyntax:Namer.name_let", props=["C17"])
+class NameLet:
+    """a named let keeps its name; an anonymous one gets a name that is none of the names to avoid, and the
+    counter moves on (so the next anonymous let gets a different name)"""
+
+    def requires(self, let):
+        return (type_is(self, Namer) and isinstance(self.let_names, list) and is_int(self.next_let) and isinstance(let, QConstant)
+                and (let.name is None or is_str(let.name)))
+
+    modifies = ("self.next_let",)
+
+    def ensures_named(self, let, result):
+        return implies(let.name is not None, same(result, let.name) and self.next_let == old(self.next_let))
+
+    def ensures_anonymous(self, let, result):
+        return implies(let.name is None, not (result in self.let_names) and self.next_let > old(self.next_let))
+
+    raises_only = ()
+
+
+@contract("qsyntax.qsyntax:Namer.name_register", props=["C17"])
+class NameRegister:
+    def requires(self, register):
+        return (type_is(self, Namer) and isinstance(self.register_names, list) and is_int(self.next_register) and isinstance(register, QRegister)
+                and (register.name is None or is_str(register.name)))
+
+    modifies = ("self.next_register",)
+
+    def ensures_named(self, register, result):
+        return implies(register.name is not None, same(result, register.name) and self.next_register == old(self.next_register))
+
+    def ensures_anonymous(self, register, result):
+        return implies(register.name is None, not (result in self.register_names) and self.next_register > old(self.next_register))
+
+    raises_only = ()
+
+
+@contract("qsyntax.qsyntax:Namer.__init__", props=["C17"])
+class NamerInit:
+    """lets and registers share one namespace: BOTH lists of names to avoid hold the user's names of both kinds
+    (anonymous objects, whose name is None, left out); the counters start at 0"""
+
+    def requires(self, let_names, register_names):
+        return type_is(self, Namer) and isinstance(let_names, list) and isinstance(register_names, list)
+
+    modifies = ("self.let_names", "self.register_names", "self.next_let", "self.next_register")
+
+    def ensures_lists(self, let_names, register_names, result):
+        return (isinstance(self.let_names, list) and isinstance(self.register_names, list)
+                and forall_range(len(let_names), lambda k: implies(let_names[k] is not None, let_names[k] in self.let_names and let_names[k] in self.register_names))
+                and forall_range(len(register_names), lambda k: implies(register_names[k] is not None, register_names[k] in self.let_names and register_names[k] in self.register_names)))
+
+    def ensures_counters(self, let_names, register_names, result):
+        return self.next_let == 0 and self.next_register == 0
+
+    raises_only = ()
